@@ -89,6 +89,11 @@ func (e *DocumentError) SetIncorrectUserType(s string) {
 	e.incorrectUserType = s
 }
 
+// File returns the file the error's position refers to (may be nil).
+func (e DocumentError) File() *fs.File {
+	return e.file
+}
+
 func (e *DocumentError) SetFile(file *fs.File) {
 	e.file = file
 }
